@@ -64,7 +64,7 @@ var c09Jobs = []c09Job{
 	{"unhinted-noformat", func(k func(jen.Code) jen.Code) string {
 		f := jen.NewFilePathName("l/m", "m")
 		f.NoFormat = true
-		f.Var().Id("_").Op("=").List(jen.Qual("x/yaml.v2", "Marshal"), jen.Qual("a/f", "X"), jen.Qual("b/f", "Y"), jen.Qual("l/m", "Local"), jen.Qual("d/go", "K"))
+		f.Var().Id("_").Op("=").List(jen.Qual("x/yaml.v2", "Marshal"), jen.Qual("a/f", "X"), jen.Qual("b/f", "Y"), jen.Qual("l/m", "Local"), jen.Qual("d/go", "K"), jen.Qual("d/9", "N"), jen.Qual("s/lash/", "S"))
 		f.Type().Id("T").Struct(jen.Id("A").Int().Tag(map[string]string{"json": "a", "db": "b"}))
 		f.Var().Id("m").Op("=").Map(jen.String()).Int().Values(jen.Dict{k(jen.Lit("k1")): jen.Lit(1), k(jen.Lit("k2")): jen.Qual("e/f", "V"), k(jen.Qual("a/f", "K")): jen.Lit(3)})
 		return c09Out(f)
@@ -100,7 +100,7 @@ func init() {
 		c09Job{"shared-index-user", func(k func(jen.Code) jen.Code) string {
 			f := jen.NewFile("u")
 			f.ImportNames(c09Index)
-			f.Var().Id("_").Op("=").List(jen.Qual("e/yaml.v3", "Marshal"), jen.Qual("e/util", "X"), jen.Qual("x/yaml.v2", "Y"))
+			f.Var().Id("_").Op("=").List(jen.Qual("e/yaml.v3", "Marshal"), jen.Qual("e/util", "X"), jen.Qual("x/yaml.v2", "Y"), jen.Qual("e/7", "N"), jen.Qual("t/lash/", "S"))
 			return c09Out(f)
 		}},
 		c09Job{"shared-index-extender", func(k func(jen.Code) jen.Code) string {
@@ -184,6 +184,13 @@ var c09SharedParts = []c09Shared{
 	}},
 	{"bare-Block", nil}, // handled specially: one Block used after Case in one File and after If in the other
 	{"Local-Qual", func() jen.Code { return jen.Qual("l/one", "Here").Call() }},
+	{"Table-of-40-Dict-rows", func() jen.Code {
+		var rows []jen.Code
+		for i := 0; i < 40; i++ {
+			rows = append(rows, jen.Values(jen.Dict{jen.Id("K"): jen.Qual("a/f", fmt.Sprintf("V%d", i)), jen.Id("L"): jen.Lit(i)}))
+		}
+		return jen.Id("_").Op("=").Index().Id("T").Values(rows...)
+	}},
 	{"Clones-of-one-base", nil}, // each File appends to its own Clone() of one base statement that has spare capacity
 }
 
@@ -310,7 +317,7 @@ func runC09(r *ev.Recorder) {
 		"scheduling points = every statement touching a package-level variable of jennifer (inserted by the instrumenter from go/types on the current tree) + job start/end; all interleavings with <= %d preemptions for %d job sets; "+
 		"package-level variables are snapshotted and restored per execution, map order pinned to canonical. Oracle: every job's output equals its solo output computed in a pristine process; and, when the package uses no synchronisation at all, "+
 		"no package-level variable is written by one job and accessed by another (a data race by construction). "+
-		"(2) histories: every permutation of the first five and every ordered triple of all %d jobs rendered sequentially in one process, each sequence twice; every subset of 6 shareable parts (a Qual, a Case+Block, a Dict, a bare Block used after Case in one File and after If in the other, a Qual that is local to one File, two Clones of one base statement with spare capacity - one per File) "+
+		"(2) histories: every permutation of the first five and every ordered triple of all %d jobs rendered sequentially in one process, each sequence twice; then 1500 failing and (recovered) panicking renders of unrelated Files followed by every job again; every subset of 7 shareable parts (a table of 40 composite-literal rows built with Dict, a Qual, a Case+Block, a Dict, a bare Block used after Case in one File and after If in the other, a Qual that is local to one File, two Clones of one base statement with spare capacity - one per File) "+
 		"shared between two Files of 4 configurations, rendered in both orders and twice - each output must equal that of a File built privately. "+
 		"(3) race pass: the same job bodies on free-running goroutines in a -race build (complement: a cooperative scheduler's hand-offs hide unsynchronised accesses). "+
 		"states = schedules + orders + sharings executed; distinct_nontrivial = distinct schedules with at least one preemption + sharings between Files whose private renderings differ", jn, bound, len(jobSets), len(c09Jobs))
@@ -371,6 +378,28 @@ func runC09(r *ev.Recorder) {
 			r.Sample(map[string]any{"order": perm, "first_output": jh.Short(got[0], 300)})
 		}
 	}
+	// (2a') many failing renders in a row (invalid compositions and build-time panics that the
+	// caller recovers), then every job again
+	for i := 0; i < 1500; i++ {
+		jh.Catch(func() (string, error) {
+			f := jen.NewFile("z")
+			f.Func().Id("deep").Params().Block(jen.If(jen.True()).Block(jen.For().Block(jen.Id("x").Op("=").Index().Int().Values(jen.Lit(struct{ A int }{i})))))
+			return f.GoString(), nil
+		})
+		jh.RenderFile(func() *jen.File { f := jen.NewFile("z"); f.Func().Id("g").Params().Block(jen.Op("}")); return f }())
+		jh.Catch(func() (string, error) {
+			return jen.Values(jen.Dict{jen.Lit(1): jen.Lit(2)}, jen.Lit(3)).GoString(), nil
+		})
+	}
+	for i, j := range c09Jobs {
+		o := c09Bodies(nil, []int{i})[0]()
+		r.Eval(1)
+		states++
+		if o != solo[j.name] {
+			desc := fmt.Sprintf("after 1500 failing and panicking renders of unrelated Files, job %s differs from its solo output", j.name)
+			r.Violate(ev.Violation{Signature: "c09:after-failures:" + j.name, What: desc, Case: ev.JSON(c09Case{Kind: "order", Jobs: []int{i}, Desc: desc}), Detail: fmt.Sprintf("--- got\n%s\n--- solo\n%s", o, solo[j.name])})
+		}
+	}
 	if changed := snap0.Changed(); len(changed) > 0 {
 		sort.Strings(changed)
 		r.Note("package_level_variables_changed_by_rendering", changed)
@@ -415,7 +444,9 @@ func runC09(r *ev.Recorder) {
 		}
 		cmd := exec.Command(rb, "c09race", rounds)
 		cmd.Env = append(os.Environ(), "GORACE=halt_on_error=0 exitcode=66")
-		out, err := cmd.CombinedOutput()
+		var out []byte
+		var err error
+		r.External(func() { out, err = cmd.CombinedOutput() })
 		nraces := strings.Count(string(out), "WARNING: DATA RACE")
 		r.Note("race_pass", map[string]any{"rounds": rounds, "goroutines_per_round": 2 * len(c09Jobs), "data_race_reports": nraces})
 		if nraces > 0 {
